@@ -221,6 +221,14 @@ fn matrix_cases() -> Vec<Case> {
             "print(@->type())\n",
             "print([@, @] == [@, @])\n",
             "fn g(..r) {\nreturn r\n}\nprint(g(@..) == @)\n",
+            "[] := @\nprint(1)\n",
+            "[] = @\nprint(1)\n",
+            "{} := @\nprint(1)\n",
+            "[p, []] := [1, @]\nprint(1)\n",
+            "[[], ..p] := [@, @]\nprint(1)\n",
+            "for [i, []] in [@] {\nprint(1)\n}\n",
+            "fn g([], {}) {\nprint(1)\n}\ng(@, @)\n",
+            "[_, ..p] := @\nprint(1)\n",
         ] {
             v.push(Case::new(format!("{}print(\"pre\")\n{}", SHAPES_SETUP, tmpl.replace('@', r)), 2, format!("matrix context {:?} with {}", tmpl.replace('\n', " "), r)));
         }
@@ -257,6 +265,33 @@ fn boundary_cases(tier: Tier) -> Vec<Case> {
             v.push(Case::new(format!("n := 0\nfor e in {} .. {} {{\nn += 1\n}}\nprint(n)\n", la, lb), 3, format!("for over {} .. {}", a, b)));
             v.push(Case::new(format!("a := {}\nb := {}\nfor [i, e] in a .. b {{\nprint(i)\n}}\nprint([(a .. b)..])\nprint((a .. b)[:])\n", la, lb), 3, format!("uses of {} .. {}", a, b)));
         }
+    }
+    // diagnostics that quote program text: names of 0..90 bytes with a multi-byte character at
+    // every offset parity, in every failing position that names a property, key or variable
+    for n in 0..=90usize {
+        for name in [format!("{}é{}", "a".repeat(n), "b".repeat(90 - n)), format!("{}{}", "a".repeat(n % 4), "€".repeat(n)), "k".repeat(n + 1)] {
+            for tmpl in [
+                "o := {}\nprint(o[\"@\"])\n",
+                "o := {}\no[\"@\"] += 1\n",
+                "o := {\"z\": 1}\n{\"@\": p} := o\n",
+                "o := {\"@\": 1}\no[\"@\"] += \"s\"\n",
+                "o := {\"@\": 1}\nprint(o[\"@\"][0])\n",
+                "print(\"@\" + 1)\n",
+                "print(\"@\"[500])\n",
+                "print(\"@\"->nope())\n",
+            ] {
+                v.push(Case::new(format!("print(\"pre\")\n{}", tmpl.replace('@', &name)), 3, format!("diagnostic quoting a name of {} bytes", name.len())));
+            }
+            if name.is_ascii() {
+                v.push(Case::new(format!("print(\"pre\")\nprint({})\n", name), 3, format!("undefined name of {} bytes", name.len())));
+                v.push(Case::new(format!("print(\"pre\")\no := {{}}\nprint(o.{})\n", name), 3, format!("missing property of {} bytes", name.len())));
+                v.push(Case::new(format!("print(\"pre\")\n{} := 1\n{} := 2\n", name, name), 3, format!("redeclared name of {} bytes", name.len())));
+            }
+        }
+    }
+    // text inside slots where a name or number touches a multi-byte character
+    for slot in ["x€", "1é", "xé + 1", "x😀x", "é", "\"é\"x", "x.é", "x[€]"] {
+        v.push(Case::new(format!("x := \"v\"\nprint(\"pre\")\nprint($\"a${{{}}}b\")\n", slot), 3, format!("slot text {:?}", slot)));
     }
     // type functions stored in containers and reached through them
     for call in ["t.size()", "t.kind()", "t[\"size\"]()", "u[0]()", "u[1]()", "w := t.size\nw()", "w := u[0]\nw()", "w := \"abc\"->len\nw()", "w := [1]->type\nprint(w())"] {
@@ -353,7 +388,7 @@ impl Check for C02 {
     fn run(&self, ctx: &mut Ctx) -> Result<(), MachineryError> {
         let depth = std::env::var("C02_DEPTH").ok().and_then(|s| s.parse().ok()).unwrap_or(ctx.tier.pick(5usize, 7usize));
         ctx.rule = format!(
-            "(1) breadth-first over all histories of <= {} operations from {} alias-shape operations on a, b, c (store a container in itself / in another / both ways, += and element += with the container on both sides, range assignment from itself, collect and spread of itself, loops that rebind or overwrite what they iterate, print, ==, !=, === against itself and wrappers of itself, a function that mutates one parameter and compares it with the other); states merged when the reference heap graphs (cycles included) are isomorphic; (2) 16 binary operators x 24^2 ordered operand pairs over aliased and cyclic shapes, 5 op-assign operators and plain assignment x 9 places x 24 operands, 13 contexts x 24 operands; (3) integer boundary pairs x 5 operators, multi-byte text around slots, out-of-range slices; (4) 30 one-hole expression constructors (literals, spreads, operators, calls of plain / interpolating / wrapping functions, methods, interpolation slots, indexing, ranges, type functions, immediately called function literals) composed 2 deep (thorough: 3) over 9 leaves; oracle: the run ends by completion or diagnostic, never a panic, signal or hang; non-trivial = all",
+            "(1) breadth-first over all histories of <= {} operations from {} alias-shape operations on a, b, c (store a container in itself / in another / both ways, += and element += with the container on both sides, range assignment from itself, collect and spread of itself, loops that rebind or overwrite what they iterate, print, ==, !=, === against itself and wrappers of itself, a function that mutates one parameter and compares it with the other); states merged when the reference heap graphs (cycles included) are isomorphic; (2) 16 binary operators x 24^2 ordered operand pairs over aliased and cyclic shapes, 5 op-assign operators and plain assignment x 9 places x 24 operands, 21 contexts x 24 operands; (3) integer boundary pairs x 5 operators, multi-byte text around slots, out-of-range slices; (4) 30 one-hole expression constructors (literals, spreads, operators, calls of plain / interpolating / wrapping functions, methods, interpolation slots, indexing, ranges, type functions, immediately called function literals) composed 2 deep (thorough: 3) over 9 leaves; oracle: the run ends by completion or diagnostic, never a panic, signal or hang; non-trivial = all",
             depth,
             OPS.len()
         );
